@@ -55,6 +55,13 @@ def form_lines(st):
         return _L("S.emit('%s')" % p[0])
     if f == 'say':
         return _L("S.say('%s', '%s')" % (st.get('text', 'ok'), p[0]))
+    if f == 'loopval':
+        # a compound statement with a bare expression in its body, the same text wherever it
+        # appears: echoed in REPL mode ('...' continuation), silent otherwise
+        return _L("for sim_j in (1, 2):", "    sim_j")
+    if f == 'sayval':
+        # an expression whose value is the same plain string wherever it appears
+        return _L("S.sayval('%s')" % p[0])
     if f == 'write':
         return _L("_ = sys.stdout.write(str(S.op('%s')) + chr(10))" % p[0])
     if f == 'for':
@@ -234,7 +241,7 @@ def form_out(st):
     return []
 
 
-EXPR_FORMS = {'expr', 'print', 'emit', 'emitnoeol', 'coroexpr', 'reprexpr', 'say', 'multiline', 'semiemit', 'tqprint', 'callhelper_expr', 'callhelper_emit',
+EXPR_FORMS = {'expr', 'print', 'emit', 'emitnoeol', 'coroexpr', 'reprexpr', 'sayval', 'say', 'multiline', 'semiemit', 'tqprint', 'callhelper_expr', 'callhelper_emit',
               'callmod_expr', 'awaitexpr', 'awaitprint', 'names', 'emitop'}
 VALUE_FORMS = {'expr': 0, 'multiline': 0, 'callhelper_expr': 0, 'callmod_expr': 0, 'awaitexpr': 0, 'emitop': 0, 'reprexpr': 0}
 NOCODE_FORMS = {'comment', 'directive', 'blankprompt'}
@@ -347,6 +354,11 @@ def want_lines_for(st, window_nominal):
         return text.rstrip('\n').split('\n')
     elif w == 'text':
         text = 'SomeWantText%d\n' % st['i']
+    elif w == 'loopecho':
+        text = '1\n2\n'
+    elif w == 'okell':
+        # the shared value 'okay' written with an ellipsis and without its quotes
+        text = 'o...y\n'
     elif w == 'none':
         # the repr of the value of an expression statement that evaluates to None
         text = 'None\n'
